@@ -23,6 +23,7 @@ import (
 	"encoding/json"
 	"fmt"
 	"math/big"
+	"os"
 	"sort"
 	"strings"
 	"sync/atomic"
@@ -139,10 +140,81 @@ type fixtures struct {
 	// subject as 0 with another key (a re-keyed certificate), 3 = (Other EC, p256): same key as 1 under another subject
 	// 4 = (Blocked Ed, Ed25519 key), 5 = (Blocked P384, P-384 key): key types whose SubjectPublicKeyInfo the
 	// library has to re-marshal to the bytes in the certificate
-	oneBlocked [6]struct {
+	// 6 = (Blocked RSA, DSA key), 7 = (Blocked RSA, X25519 key), 8 = (Blocked RSA, key of an unknown algorithm): the
+	// exotic-key query certificates' own SubjectPublicKeyInfo under the subject they share with 0 and 2
+	oneBlocked [9]struct {
 		subj []byte
 		hash [32]byte
 	}
+}
+
+// ---- query certificates whose key the PARSER accepts but which other code paths may not handle
+
+type exoticKey struct {
+	kind string
+	spki []byte
+}
+
+type stdAlgID struct {
+	Algorithm  stdasn1.ObjectIdentifier
+	Parameters stdasn1.RawValue `asn1:"optional"`
+}
+type stdSPKI struct {
+	Algorithm stdAlgID
+	Key       stdasn1.BitString
+}
+
+func mustDER(v any) []byte {
+	b, err := stdasn1.Marshal(v)
+	if err != nil {
+		panic(err)
+	}
+	return b
+}
+
+// exoticKeys: SubjectPublicKeyInfo values written from RFC 3279 (DSA), RFC 8410 (X25519) and with an OID from a
+// private arc that no library knows.
+func exoticKeys() []exoticKey {
+	d := fx.DSA("dsa1024")
+	dsaParams := mustDER(struct{ P, Q, G *big.Int }{d.P, d.Q, d.G})
+	dsaY := mustDER(d.Y)
+	x := sha256.Sum256([]byte("c15-x25519-public"))
+	opaque := []byte{0x04, 0x05, 0xde, 0xad, 0xbe, 0xef, 0x01}
+	return []exoticKey{
+		{"DSA", mustDER(stdSPKI{stdAlgID{stdasn1.ObjectIdentifier{1, 2, 840, 10040, 4, 1}, stdasn1.RawValue{FullBytes: dsaParams}}, stdasn1.BitString{Bytes: dsaY, BitLength: 8 * len(dsaY)}})},
+		{"X25519", mustDER(stdSPKI{stdAlgID{Algorithm: stdasn1.ObjectIdentifier{1, 3, 101, 110}}, stdasn1.BitString{Bytes: x[:], BitLength: 256}})},
+		{"unknown-algorithm", mustDER(stdSPKI{stdAlgID{stdasn1.ObjectIdentifier{1, 3, 6, 1, 4, 1, 99999, 15, 1}, stdasn1.RawValue{FullBytes: []byte{5, 0}}}, stdasn1.BitString{Bytes: opaque, BitLength: 8 * len(opaque)}})},
+	}
+}
+
+// spliceSPKI replaces the subjectPublicKeyInfo of a v3 certificate and signs the new TBSCertificate with the real
+// (Ed25519) parent key.
+func spliceSPKI(der, spki []byte, parent ed25519.PrivateKey) []byte {
+	type certSeq struct {
+		TBS, Alg stdasn1.RawValue
+		Sig      stdasn1.BitString
+	}
+	var cs certSeq
+	if rest, err := stdasn1.Unmarshal(der, &cs); err != nil || len(rest) != 0 {
+		panic(fmt.Sprintf("spliceSPKI: %v", err))
+	}
+	var parts [][]byte
+	for body := cs.TBS.Bytes; len(body) > 0; {
+		var rv stdasn1.RawValue
+		var err error
+		if body, err = stdasn1.Unmarshal(body, &rv); err != nil {
+			panic(err)
+		}
+		parts = append(parts, rv.FullBytes)
+	}
+	// [0] version, serialNumber, signature, issuer, validity, subject, subjectPublicKeyInfo, …
+	if len(parts) < 7 || parts[0][0] != 0xa0 {
+		panic("spliceSPKI: not a v3 TBSCertificate")
+	}
+	parts[6] = spki
+	tbs := mustDER(stdasn1.RawValue{Class: 0, Tag: 16, IsCompound: true, Bytes: bytes.Join(parts, nil)})
+	sig := ed25519.Sign(parent, tbs)
+	return mustDER(certSeq{stdasn1.RawValue{FullBytes: tbs}, stdasn1.RawValue{FullBytes: cs.Alg.FullBytes}, stdasn1.BitString{Bytes: sig, BitLength: 8 * len(sig)}})
 }
 
 func mkQ(name string, c *fx.Cert, issuer *qcert) *qcert {
@@ -238,6 +310,28 @@ func buildFixtures() *fixtures {
 	{
 		c := fx.MustMint(fx.CertSpec{CN: "Blocked RSA root", Key: "rsa1024", IsCA: true, Serial: 78}, nil)
 		add(mkQ("blocked-rsa/self-signed", c, nil))
+	}
+	// exotic keys: issued by the listed-capable ca1 under the listable serial 1, subject = the "Blocked RSA" subject of
+	// blocked records 0 and 2 (so every model with one of them has a same-subject blocked record for these)
+	for i, ek := range exoticKeys() {
+		base := fx.MustMint(fx.CertSpec{CN: "Blocked RSA", Key: "c15-exotic", Tweak: func(t *x509.Certificate) { t.SerialNumber = serialVals[0] }}, fxCA["ca1"])
+		der := spliceSPKI(base.DER, ek.spki, fx.Ed("c15-ca1"))
+		z, err := x509.ParseCertificate(der)
+		if err != nil {
+			panic("fixture exotic/" + ek.kind + ": zcrypto cannot parse: " + err.Error())
+		}
+		q := mkQ("exotic/"+ek.kind, &fx.Cert{X: z, DER: der}, f.cas["ca1"])
+		std, _ := stdx509.ParseCertificate(der)
+		if q.SPKIHash != sha256.Sum256(ek.spki) || q.SubjDN != f.byName["blocked-rsa"].SubjDN || q.IssuerDN != f.cas["ca1"].SubjDN || q.Serial.Cmp(serialVals[0]) != 0 ||
+			len(std.RawTBSCertificate) == 0 {
+			panic("fixture exotic/" + ek.kind + " is not what was intended")
+		}
+		if !ed25519.Verify(fx.Ed("c15-ca1").Public().(ed25519.PublicKey), std.RawTBSCertificate, std.Signature) {
+			panic("fixture exotic/" + ek.kind + ": signature by ca1 does not verify")
+		}
+		q.KeyKind = ek.kind // crypto/x509 knows DSA only; the kind is that of the SPKI written above
+		add(q)
+		f.oneBlocked[6+i].subj, f.oneBlocked[6+i].hash = []byte(q.SubjDN), q.SPKIHash
 	}
 	for _, q := range f.queries {
 		ih := q.issuerSPKIHash()
@@ -1102,7 +1196,7 @@ func main() {
 			c.Set("serial_lists_per_issuer_sequences", len(sequences))
 			extra = " PLUS (thorough) the same with every ORDER of each serial list (sequences without repetition of length 1..3) x blocked keys {none, both} x layouts {both for OneCRL/SST, slot order for CRLSet}, models already covered by the first part skipped;"
 		}
-		c.Rule("ALL models: 3 issuer slots (ca1 'CN=Rev CA 1', ca2 'CN=Rev CA 2,O=Org', ca3 'CN=Rev CA 1,O=Org'), each absent or carrying a serial list = subset of size 1..3 of {1,255,256,2^64,128} in alphabet order (CRLSet additionally: present with 0 serials) x every subset of the format's blocked keys (CRLSet: 2 SPKI hashes; OneCRL: 4 RSA-1024/P-256 subject/key-hash records of which two share a subject and two share a key; none for SST) x 2 layouts (slot order grouped / reversed order interleaved, blocked records last/first, SST property elements none|SHA-1|empty+header-lookalike); OneCRL additionally: all 48 blocked masks containing an Ed25519-key and/or a P-384-key record x issuer lists from {[1],[255,2^64],[1,256,128]} per slot x 2 layouts (expected key hash = SHA-256 of the SubjectPublicKeyInfo bytes in the certificate), and every model with the FIRST issuer/serial record written \"enabled\":false (layout 2, answer for that record recorded, all other answers strict); CRLSet additionally: every model with the first parent of >=2 serials written as TWO blocks of the same parent hash (layout 2; union or later-block-only accepted for that parent, serials of the later block and everything else strict);" + extra + " each model encoded as CRLSet, OneCRL JSON and SST by the harness' own encoders, parsed, compared with the model, then queried with EVERY pool certificate: 6 CAs (3 listed-capable, unrelated, same-name-other-key, same-key-other-name) x serials {alphabet, 77} leaves, 2 CAs whose subject is ca3's name in another DER encoding (UTF8String values; RDN order O,CN) with leaves of serials {1, 2^64, 77} -- never listed, expected not revoked in every format --, the CA certificates, 2 same-issuer+serial twins, RSA/ECDSA/Ed25519/P-384 blocked-key certificates with same-subject-other-key and same-key-other-subject variants and a self-signed one; a model is non-trivial/distinct by (format, issuer lists, blocked mask, layout)")
+		c.Rule("ALL models: 3 issuer slots (ca1 'CN=Rev CA 1', ca2 'CN=Rev CA 2,O=Org', ca3 'CN=Rev CA 1,O=Org'), each absent or carrying a serial list = subset of size 1..3 of {1,255,256,2^64,128} in alphabet order (CRLSet additionally: present with 0 serials) x every subset of the format's blocked keys (CRLSet: 2 SPKI hashes; OneCRL: 4 RSA-1024/P-256 subject/key-hash records of which two share a subject and two share a key; none for SST) x 2 layouts (slot order grouped / reversed order interleaved, blocked records last/first, SST property elements none|SHA-1|empty+header-lookalike); OneCRL additionally: all 48 blocked masks containing an Ed25519-key and/or a P-384-key record x issuer lists from {[1],[255,2^64],[1,256,128]} per slot x 2 layouts (expected key hash = SHA-256 of the SubjectPublicKeyInfo bytes in the certificate), and every model with the FIRST issuer/serial record written \"enabled\":false (layout 2, answer for that record recorded, all other answers strict); CRLSet additionally: every model with the first parent of >=2 serials written as TWO blocks of the same parent hash (layout 2; union or later-block-only accepted for that parent, serials of the later block and everything else strict);" + extra + " each model encoded as CRLSet, OneCRL JSON and SST by the harness' own encoders, parsed, compared with the model, then queried with EVERY pool certificate: 6 CAs (3 listed-capable, unrelated, same-name-other-key, same-key-other-name) x serials {alphabet, 77} leaves, 2 CAs whose subject is ca3's name in another DER encoding (UTF8String values; RDN order O,CN) with leaves of serials {1, 2^64, 77} -- never listed, expected not revoked in every format --, the CA certificates, 2 same-issuer+serial twins, RSA/ECDSA/Ed25519/P-384 blocked-key certificates with same-subject-other-key and same-key-other-subject variants and a self-signed one, and 3 EXOTIC-KEY certificates (keys the parser accepts but other code may not handle: DSA, X25519, a SubjectPublicKeyInfo with an unknown algorithm OID; SPKI hand-spliced into a minted certificate and signed with ca1's real key) issued by the listed-capable ca1 under the listable serial 1 with the subject of blocked records 0/2, so that they are queried with and without a same-subject blocked record in all three formats (key kind is irrelevant to issuer+serial listing); OneCRL additionally: every non-empty subset of 3 records carrying those certificates' own subject + SHA-256(SubjectPublicKeyInfo DER), with and without record 0, x issuer lists from {[1],[255,2^64],[1,256,128]} per slot x 2 layouts; a model is non-trivial/distinct by (format, issuer lists, blocked mask, layout)")
 		c.Assume(
 			"query certificate features (raw issuer/subject names, serial, SPKI) are read with crypto/x509 from the DER; expected membership is computed from the model only",
 			"CRLSet blocked SPKIs are base64(SHA-256(SPKI)) header strings as in Chrome's published sets (testdata/crl-set-6375); Check is called with the hex SHA-256 of the issuer's SPKI (the key form of IssuerLists, as verifier.go does)",
@@ -1160,6 +1254,11 @@ func main() {
 			}
 			return true
 		}
+		// development aid: VERIF_C15_ONLY=<format>/<part>,… runs just those parts (the run is then reported incomplete)
+		only := os.Getenv("VERIF_C15_ONLY")
+		if only != "" {
+			c.Incomplete("VERIF_C15_ONLY=" + only + ": only the named parts were enumerated")
+		}
 	formats:
 		for _, format := range []string{"crlset", "onecrl", "sst"} {
 			allMasks, bothMasks := []int{0, 1, 2, 3}, []int{0, 3}
@@ -1183,6 +1282,13 @@ func main() {
 					newMasks = append(newMasks, k)
 				}
 				parts = append(parts, part{"ed25519-p384-blocked-keys", [][]int{{0}, {1, 3}, {0, 2, 4}}, newMasks, []int{0, 1}, false})
+				// records carrying the exotic-key certificates' own SubjectPublicKeyInfo hash: every non-empty subset of the
+				// three, with and without the same-subject RSA record 0
+				var exMasks []int
+				for sub := 1; sub < 8; sub++ {
+					exMasks = append(exMasks, sub<<6, sub<<6|1)
+				}
+				parts = append(parts, part{"exotic-key-blocked-records", [][]int{{0}, {1, 3}, {0, 2, 4}}, exMasks, []int{0, 1}, false})
 				// first issuer/serial record disabled (layout 2)
 				parts = append(parts, part{"disabled-record", subsets, []int{0}, []int{2}, false})
 			}
@@ -1196,6 +1302,9 @@ func main() {
 			for _, pt := range parts {
 				pt := pt
 				lists := pt.lists
+				if only != "" && !strings.Contains(","+only+",", ","+format+"/"+pt.name+",") {
+					continue
+				}
 				// per-slot options: 0 = absent, 1..len(lists) = list, (crlset) len(lists)+1 = present but empty
 				opts := len(lists) + 1
 				if format == "crlset" {
@@ -1253,7 +1362,9 @@ func main() {
 				}
 			}
 		}
-		reentrantPhase(c)
+		if only == "" {
+			reentrantPhase(c)
+		}
 	})
 }
 
